@@ -11,33 +11,34 @@ import (
 // C12 - scoping: bindings stay in their construct; caller data is never modified.
 
 type snode struct {
-	kind   string // probe with for set if block macrodef call include text
-	name   string
-	pairs  [][2]string // (name, rhs) ; rhs = "\"lit\"" or a name
-	body   []*snode
-	cond   bool
-	params []string
-	args   []string // rhs list
-	only   bool
-	file   string
-	lazy   bool
+	kind     string // probe with for set if block macrodef call include text
+	name     string
+	pairs    [][2]string // (name, rhs) ; rhs = "\"lit\"" or a name
+	body     []*snode
+	cond     bool
+	params   []string
+	args     []string // rhs list
+	only     bool
+	file     string
+	lazy     bool
+	ghost    bool // preceded by a computed-name include of a missing file with if_exists and with-pairs (renders nothing, binds nothing)
 	oldStyle bool
 }
 
 var c12Pool = []string{"a", "b", "c", "d"}
 
 type c12Gen struct {
-	r       *Rng
-	nlit    int
-	nfile   int
-	nmacro  int
-	nblock  int
-	files   map[string][]*snode
-	macros  []string // defined macro names (top level, before use)
-	macroNP map[string]int
-	inMacro bool
-	inInclude int
-	onlyNames []string // inside an `only` include: the names that may be probed
+	r           *Rng
+	nlit        int
+	nfile       int
+	nmacro      int
+	nblock      int
+	files       map[string][]*snode
+	macros      []string // defined macro names (top level, before use)
+	macroNP     map[string]int
+	inMacro     bool
+	inInclude   int
+	onlyNames   []string // inside an `only` include: the names that may be probed
 	macroParams []string
 }
 
@@ -181,7 +182,7 @@ func (g *c12Gen) node(depth int) *snode {
 			return &snode{kind: "probe", name: g.probeName()}
 		}
 		g.nfile++
-		nd := &snode{kind: "include", file: fmt.Sprintf("/inc%d.tpl", g.nfile), lazy: r.Chance(30) && g.inInclude == 0, only: r.Chance(35)}
+		nd := &snode{kind: "include", file: fmt.Sprintf("/inc%d.tpl", g.nfile), lazy: r.Chance(30) && g.inInclude == 0, only: r.Chance(35), ghost: r.Chance(30) && g.inInclude == 0}
 		used := map[string]bool{}
 		for i := r.Intn(3); i > 0; i-- {
 			n := g.bindName()
@@ -248,6 +249,9 @@ func c12Src(nodes []*snode, files map[string]string, g *c12Gen) string {
 			sb.WriteString("{{ " + n.name + "(" + strings.Join(n.args, ", ") + ") }}")
 		case "include":
 			files[n.file] = c12Src(g.files[n.file], files, g)
+			if n.ghost {
+				sb.WriteString(`{% include nofile if_exists with a="ghost_a" b="ghost_b" c="ghost_c" g="ghost_g" %}`)
+			}
 			if n.lazy {
 				sb.WriteString("{% include fname_" + strings.Trim(n.file, "/.tpl") + "")
 			} else {
@@ -314,10 +318,10 @@ type c12Macro struct {
 type sinterp struct {
 	globals map[string]string
 	out     strings.Builder
-	g      *c12Gen
-	macros map[string]*c12Macro
-	root   *senv
-	items  []string
+	g       *c12Gen
+	macros  map[string]*c12Macro
+	root    *senv
+	items   []string
 }
 
 func (in *sinterp) flatten(e *senv) map[string]string {
@@ -416,7 +420,7 @@ type c12Holder struct {
 
 func c12CallerData(withGlobals bool) (pongo2.Context, pongo2.Context) {
 	ctx := pongo2.Context{
-		"a": "ctx_a", "c": "ctx_c", "x": "ctx_x",
+		"a": "ctx_a", "c": "ctx_c", "x": "ctx_x", "nofile": "/no/such/file.tpl",
 		"items":  []string{"i1", "i2"},
 		"lst":    []int{3, 1, 2},
 		"mp":     map[string]int{"z": 1, "y": 2},
